@@ -123,7 +123,7 @@ func expand(reg *registry.Registry, t *Transaction, accrual *syntax.Accrual) ([]
 	}
 	var result []*Transaction
 	for _, p := range t.Postings {
-		if p.Account.IsAL() {
+		if !p.Account.IsIE() {
 			result = append(result, Builder{
 				Src:         t.Src,
 				Date:        t.Date,
